@@ -33,6 +33,9 @@ type Inner struct {
 // Meth is a method target with value receiver (callable through H.In.Sum / H.Pn.Sum).
 func (in Inner) Sum(a int64, b uint16) int64 { return in.X + a + int64(b) }
 
+// Bump has a POINTER receiver: callable through the pointer field H.Pn, and it changes the host's object.
+func (in *Inner) Bump(d int8) int64 { in.X += int64(d); return in.X }
+
 // Host is the pointer-injected struct with every numeric width.
 type Host struct {
 	I   int
@@ -56,6 +59,7 @@ type Host struct {
 	SL  []int32
 	AR  [4]uint8
 	Emb
+	IS  []Inner // slice of structs: an element can be put into a local and its fields / methods used
 	SL2 []int32 // a second slice of SL's type: `H.SL = H.SL2` replaces the field's value as a whole
 	AW  [3]int64 // array field whose elements rules store into (locals bound to the whole array keep its value)
 
@@ -206,6 +210,7 @@ func NewFixture(seed int64) *Fixture {
 			AR:  [4]uint8{uint8(pickU(r, 8)), 1, 2, uint8(pickU(r, 8))},
 			AW:  [3]int64{pickI(r, 16), 7, pickI(r, 32)},
 			SL2: []int32{int32(pickI(r, 16)), 12, 13, int32(pickI(r, 32))},
+			IS:  []Inner{{X: pickI(r, 32), Y: 3, S: "is0"}, {X: pickI(r, 64), Y: uint16(pickU(r, 16)), S: StrPool[r.Intn(len(StrPool))], B: true}},
 			Emb: Emb{EI: pickI(r, 64), EU: uint16(pickU(r, 16)), EF: F64Pool[r.Intn(len(F64Pool))], ES: StrPool[r.Intn(len(StrPool))]},
 			rec: rec,
 		}
